@@ -95,28 +95,35 @@ def s_step(batchable=False):
                                                                   "ine": st.sampled_from([False, False, False, True])})})
     load = st.fixed_dictionaries({"op": st.just("load"), "slot": _SLOT, "k": _K, "c": _C})
     assign = st.fixed_dictionaries({"op": st.just("assign"), "slot": _SLOT, "set": s_given(max_size=3), "inplace": st.lists(s_inplace(), max_size=2)})
-    save = st.fixed_dictionaries({"op": st.just("save"), "slot": _SLOT, "set": s_given(max_size=2), "inplace": st.lists(s_inplace(), max_size=3), "opt": s_opt()})
-    update = st.fixed_dictionaries({"op": st.just("update"), "slot": _SLOT, "kw": s_given(max_size=2), "inplace": st.lists(s_inplace(), max_size=3), "opt": s_opt()})
+    inpl = st.one_of(st.lists(s_inplace(), min_size=1, max_size=3), st.lists(s_inplace(), max_size=2))
+    save = st.fixed_dictionaries({"op": st.just("save"), "slot": _SLOT, "set": s_given(max_size=2), "inplace": inpl, "opt": s_opt()})
+    update = st.fixed_dictionaries({"op": st.just("update"), "slot": _SLOT, "kw": s_given(max_size=2), "inplace": inpl, "opt": s_opt()})
     delete = st.fixed_dictionaries({"op": st.just("delete"), "slot": _SLOT, "opt": s_opt(ttl=False)})
     blind = st.fixed_dictionaries({"op": st.just("blind"), "k": _K, "c": _C, "kw": s_given(min_size=1, max_size=3), "opt": s_opt()})
-    cop = st.sampled_from(["set", "set", "none", "add", "remove", "append", "prepend", "update", "mremove"])
-    qupdate = st.fixed_dictionaries({"op": st.just("qupdate"), "k": _K, "c": _C, "sets": st.lists(st.tuples(st.sampled_from(_ALL), cop, st.integers(0, 3)), min_size=1, max_size=4),
+    cop = st.sampled_from(["set", "none", "add", "remove", "append", "prepend", "update", "mremove"])
+    qupdate = st.fixed_dictionaries({"op": st.just("qupdate"), "k": _K, "c": _C, "sets": st.lists(st.tuples(st.sampled_from(_ALL + _COLLS), cop, st.integers(0, 3)), min_size=1, max_size=4),
                                      "vals": s_given(min_size=0, max_size=0), "seed": st.integers(0, 1000), "opt": s_opt()})
+    part_op = st.one_of(st.tuples(st.just("s"), st.sampled_from(["add", "remove"]), st.integers(1, 3)),
+                        st.tuples(st.just("l"), st.sampled_from(["append", "prepend"]), st.integers(1, 3)),
+                        st.tuples(st.sampled_from(["m", "sm"]), st.sampled_from(["update", "mremove"]), st.integers(1, 3)))
+    qcoll = st.fixed_dictionaries({"op": st.just("qupdate"), "k": _K, "c": _C, "sets": st.lists(part_op, min_size=1, max_size=2), "vals": st.just({}),
+                                   "seed": st.integers(0, 1000).filter(lambda n: n % 4), "opt": s_opt()})
     qdelete = st.fixed_dictionaries({"op": st.just("qdelete"), "k": _K, "c": st.one_of(_C, _C, st.none()), "opt": s_opt(ttl=False)})
     counter = st.fixed_dictionaries({"op": st.just("counter"), "how": st.sampled_from(["create", "load_incr", "load_incr", "queryset", "delete"]), "slot": _SLOT,
                                      "k": _K, "c": _C, "d1": st.integers(-3, 5), "d2": st.integers(-2, 2), "method": st.sampled_from(["save", "update"])})
     if batchable:
-        return st.one_of(create, save, update, delete, blind, qupdate, qdelete)
-    return st.one_of(create, create, load, load, assign, save, save, save, update, update, update, delete, blind, qupdate, qupdate, qdelete, counter)
+        return st.one_of(create, save, update, delete, blind, qupdate, qcoll, qdelete)
+    return st.one_of(create, create, load, load, assign, save, save, save, update, update, update, delete, blind, qupdate, qcoll, qcoll, qdelete, counter)
 
 
 def s_case():
     flags = st.fixed_dictionaries({"ck": st.booleans(), "db": st.booleans(), "default": st.booleans(), "static_map": st.booleans()})
     batch = st.fixed_dictionaries({"op": st.just("batch"), "steps": st.lists(s_step(True), min_size=2, max_size=4), "ts": st.sampled_from([False, False, True]),
                                    "type": st.sampled_from([None, None, "UNLOGGED"])})
-    create = st.fixed_dictionaries({"op": st.just("create"), "ctor": st.booleans(), "slot": _SLOT, "k": _K, "c": _C, "given": s_given(min_size=2, none=False),
+    full = st.fixed_dictionaries({"a": _INT, "s": _SET, "l": _LIST, "m": _MAP, "sm": _MAP, "st": st.one_of(st.none(), _INT), "b": st.one_of(st.none(), _TEXT)})
+    create = st.fixed_dictionaries({"op": st.just("create"), "ctor": st.booleans(), "slot": _SLOT, "k": _K, "c": _C, "given": st.one_of(full, full, s_given(min_size=2, none=False)),
                                     "opt": st.just({"ttl": None, "ts": False, "ine": False})})
-    steps = st.lists(st.one_of(s_step(), s_step(), s_step(), s_step(), s_step(), batch), min_size=2, max_size=12)
+    steps = st.lists(st.one_of(s_step(), s_step(), s_step(), s_step(), s_step(), batch), min_size=6, max_size=14)
     # every history starts by creating one or two rows, so that the instance operations have something to work on
     return st.builds(lambda f, first, rest: {"flags": f, "steps": first + rest}, flags, st.lists(create, min_size=1, max_size=2), steps)
 
@@ -875,6 +882,14 @@ def interpret(case, ctx):
                 touched.append((k, c))
             elif op == "qupdate":
                 k, c = step["k"], (step["c"] if meta.has_ck else None)
+                have = sorted(key for key in sh.all_views() if key[1] is not None or not meta.has_ck)
+                if have and step["seed"] % 4 != 0:
+                    k, c = have[step["seed"] % len(have)]
+                    # partial collection operations are most telling on rows that already hold elements
+                    wanted = [a for a, cop_, _n in step["sets"] if a in _COLLS and a in meta.attrs and cop_ not in ("set", "none")]
+                    rich = [key for key in have if any(sh.get(key[0], key[1], a) is not None for a in wanted)]
+                    if rich:
+                        k, c = rich[step["seed"] % len(rich)]
                 kw, effects = {}, []
                 seed = step["seed"]
                 seen = set()
@@ -962,6 +977,8 @@ def interpret(case, ctx):
                     if cop in ("add", "remove", "append", "prepend", "update", "mremove") and cur is not None and val:
                         feat["partial"] = True
                     blame[attr] = "qupdate:%s%s" % (cop, "" if (val or cop == "set") else ":empty")
+                    if attr in _COLLS:
+                        ctx.label("qupdate:%s:%s" % (cop, "on-existing" if cur is not None else "on-null"))
                     if new is not None or attr in meta.static or (k, c) in sh.rows:
                         sh.put(k, c, attr, new)
                 mark_stale(k, c, any(e[0] in meta.static for e in effects), True)
@@ -1017,10 +1034,13 @@ def interpret(case, ctx):
 
         def counter_step(step):
             k, c = step["k"], (step["c"] if meta.has_ck else None)
+            how = step["how"]
+            have = sorted(sh.counters, key=repr)
+            if have and (how in ("load_incr", "delete") or step["d2"] > 0):
+                k, c = have[(step["k"] + step["slot"]) % len(have)]
             key = (k, c)
             if key in sh.burnt:
                 return "skipped"
-            how = step["how"]
             kw = {"k": k}
             if meta.has_ck:
                 kw["c"] = c
@@ -1216,4 +1236,4 @@ def parts(tier):
     cqlterm.self_test()
     cqlparse.self_test()
     cqlinterp.self_test()
-    return [hyp_part("histories", s_case, interpret, tier, quick=300, thorough=2000)]
+    return [hyp_part("histories", s_case, interpret, tier, quick=450, thorough=2000)]
